@@ -166,11 +166,14 @@ def run_joint(task):
                 if task.get("warmup"):
                     _warm_up(slots, task.get("direct"))
             world = world_holder[0]
-            state, keys = seqsem.symbolic_state(world, comp, sym_atoms, fl_all)
+            state, keys = seqsem.symbolic_state(world, comp, sym_atoms, fl_all, is_init=bool(task.get("init_state")))
             before = lib.state_digest(state)
+            flag_before, text_before = state.is_init, None
             try:
                 trip = _apply_joint(world, state, slots, mode == "allowed", task.get("direct"))
                 out = ("ok", trip.next_state, len(trip.joint_action))
+                if trip.next_state is state:
+                    raise AssertionError("the joint action returned the very state object it was given")
             except Exception as e:  # noqa
                 if not lib.is_refusal(e):
                     raise
@@ -186,7 +189,7 @@ def run_joint(task):
                         s = Operator(world.domain.actions[n], world.domain, list(a), world.objects).apply(s)
                     extra.append(s)
             after = lib.state_digest(state)
-            return out, keys, extra, (before[0] == after[0] and set(before[1]) == set(after[1]))
+            return out, keys, extra, (before[0] == after[0] and set(before[1]) == set(after[1]) and state.is_init == flag_before)
 
         def on_path(ctx: Ctx, pr):
             if pr.kind == "exc":
@@ -509,6 +512,11 @@ def tasks_for(tier, seed):
             tasks.append({"kind": "joint", "mode": "joint", "slots": slots, "chain_orders": [], "direct": True,
                           "cap": 9 if tier == "quick" else 12, "max_paths": 3000 if tier == "quick" else 30000})
             tasks.append({"kind": "joint", "mode": "refuse", "slots": slots, "direct": True, "cap": 9 if tier == "quick" else 12})
+        if k == 0 or len(tasks) % 5 == 0:
+            # from a state that is flagged as the initial state (the argument keeps its flag, the result is another object)
+            for direct in (False, True):
+                tasks.append({"kind": "joint", "mode": "joint", "slots": slots, "chain_orders": [], "direct": direct, "init_state": True,
+                              "cap": 9 if tier == "quick" else 12, "max_paths": 3000 if tier == "quick" else 30000})
         if k >= 1:
             tasks.append({"kind": "joint", "mode": "refuse", "slots": slots, "cap": 9 if tier == "quick" else 12})
             tasks.append({"kind": "joint", "mode": "allowed", "slots": slots, "cap": 9 if tier == "quick" else 12})
